@@ -19,7 +19,7 @@ PY
 mut M1_config_anchor_order C19 /repo/sudachi/src/config.rs "        add_path(resource_dir);
         self.rootDirectory.map(&mut add_path);" "        self.rootDirectory.map(&mut add_path);
         add_path(resource_dir);"
-mut M2_cli_ubuild_drops_description C05 /repo/sudachi-cli/src/build.rs "    let mut builder = DictBuilder::new_system();
+mut M2_cli_build_drops_description C05 /repo/sudachi-cli/src/build.rs "    let mut builder = DictBuilder::new_system();
     builder.set_description(std::mem::take(&mut cmd.description));" "    let mut builder = DictBuilder::new_system();"
 mut M3_pretokenizer_byte_offsets C19 /repo/python/src/pretokenizer.rs "let slice = PySlice::new(py, node.begin_c() as isize, node.end_c() as isize, 1);" "let slice = PySlice::new(py, node.begin() as isize, node.end() as isize, 1);"
 mut M4_user_cost_per_morpheme C02 /repo/sudachi/src/dic/lexicon/mod.rs "const USER_DICT_COST_PER_MORPH: i32 = -20;" "const USER_DICT_COST_PER_MORPH: i32 = -10;"
@@ -30,4 +30,4 @@ mut M8_python_build_ignores_description C05 /repo/python/src/build.rs "    let m
     description.map(|d| builder.set_description(d));" "    let mut builder = DictBuilder::new_system();
     let _ = description;"
 [ -n "$(git -C /repo status --porcelain)" ] && echo "WARNING: /repo not clean"
-cat seeded/self/RESULTS.txt
+
